@@ -147,7 +147,9 @@ class C13(EngineProp):
     def case_to_coq(self, case):
         if case.get("kind") == "text":
             sa = "None" if case["stop_at"] is None else f"(Some {case['stop_at']}%nat)"
-            return "(IText {| tc_stop_at := %s |})" % sa
+            texts = [ln.strip().lstrip("0123456789. ") for ln in case["lines"]] + [ln.strip() for sn in case["inject"].values() for ln in sn]
+            resumes = any(t.startswith("Unpause") or (t.startswith("Pause:") and t[6:].strip()) for t in texts)
+            return "(IText {| tc_stop_at := %s; tc_resumes := %s |})" % (sa, "true" if resumes else "false")
         return "(IEng " + super().case_to_coq(case) + ")"
 
     def obs_to_coq(self, obs):
